@@ -330,8 +330,18 @@ def _pure(run, repo, world):
                     n.func, ast.Attribute) and n.func.attr in MUTATORS:
                 recv = unparse(n.func.value)
                 if any(r in recv for r in REGISTRY_ATTRS) or recv in (
-                        "dev_inst_map", "f", "frame") or "_mapping" in recv:
+                        "dev_inst_map", "f", "frame") or "_mapping" in recv \
+                        or recv.startswith("dev_inst_map."):
                     bad.append("%s.%s()" % (recv, n.func.attr))
+            # a decoder asks the instance map one question, get_type(): what
+            # else it reads from the map makes the result depend on entries
+            # that are not this frame's
+            if fn.name.startswith("from_") and isinstance(
+                    n, ast.Attribute) and isinstance(
+                        n.ctx, ast.Load) and unparse(
+                            n.value) == "dev_inst_map" and \
+                    n.attr != "get_type":
+                bad.append("decoder reads dev_inst_map.%s" % n.attr)
         run.ob("R-PURE", q, not bad,
                "decode-path function has a side effect on shared state: %s"
                % "; ".join(sorted(set(bad))), where(mod, fn),
